@@ -47,4 +47,19 @@ theorem C04_start_held (lvl : K → Nat) (hc : HashCfg K V D) (tL tP : Tree K V 
   cases e
   exact ⟨(diff_trees_confined lvl hc tL tP hL hP out h r hr).1, le_refl _, hv r hr⟩
 
+/-- For histories: if the two real serialisations diff to nothing in both directions, the two
+last-write-wins maps are equal. -/
+theorem C04_histories (lvl : K → Nat) (hlvl : ∀ k, lvl k < 255) (hc : HashCfg K V D)
+    (hnc : ∀ p q : Pg K V D, CollisionFree hc (p.allToks hc ++ q.allToks hc))
+    (opsA opsB : List (Op K V)) :
+    ∃ tA tB lA lB, run lvl hc (opsA ++ [.hash]) = .ok tA ∧ run lvl hc (opsB ++ [.hash]) = .ok tB ∧
+      tA.serialise = .ok (some lA) ∧ tB.serialise = .ok (some lB) ∧
+      (diff lA lB = .ok [] → diff lB lA = .ok [] → finalContent opsA = finalContent opsB) := by
+  obtain ⟨tA, rA, hA, cA⟩ := hashed_of_run lvl hlvl hc opsA
+  obtain ⟨tB, rB, hB, cB⟩ := hashed_of_run lvl hlvl hc opsB
+  refine ⟨tA, tB, _, _, rA, rB, serialise_eq_pageRanges lvl hc tA hA, serialise_eq_pageRanges lvl hc tB hB, ?_⟩
+  intro h1 h2
+  rw [← cA, ← cB]
+  exact C04 lvl hc tA tB hA hB (hnc _ _) h1 h2
+
 end Mst.Props
